@@ -374,7 +374,9 @@ def rshape(rng, n, ext=EXT, lo=1):
 
 class Op:
     def __init__(self, name, headers, args, call, dims, gen, oracle, family="index", norm=None, result="index",
-                 cx=True, weight=1, ext=EXT):
+                 cx=True, weight=1, ext=EXT, parts=None):
+        self.parts = tuple(parts or ())   # composite view operation: the nested library calls, outermost first
+        self.composite = bool(parts)
         self.name = name
         self.headers = headers
         self.args = args
@@ -1312,6 +1314,339 @@ vop("pad", ["nmtools/array/view/pad.hpp"], [ARR("a"), IA("pad_width")], "view::p
 
 
 # ----------------------------------------------------------------------------------------------------
+# composite view operations (depth 2 and 3): ordinary view operations whose call expression nests views.
+# The inner view is a temporary (possibly a nmtools_maybe<view>) handed straight to the outer view; the generated
+# instance reads the outer lazy view, its static traits, evaluates it once and prints the traits of the result type -
+# so the inferred result buffer of a view-of-a-view (fixed / bounded / dynamic) is compared with the run-time object
+# and with NumPy.  Inner views: enlarging (tile, repeat, pad, broadcast_to), shrinking (sum), joining (concatenate, add);
+# outer views: reductions, accumulations, element-wise and rearranging views.
+# ----------------------------------------------------------------------------------------------------
+
+def _vh(*names):
+    return ["nmtools/array/view/%s.hpp" % n for n in names]
+
+
+_SUM = "view::sum(%s,{axis},nm::None,nm::None,{keepdims})"
+
+
+def cvop(name, parts, headers, args, call, dims, gen, oracle, **kw):
+    return vop(name, headers, args, call, dims, gen, oracle, parts=parts, **kw)
+
+
+def _cshape(rng, n, primary):
+    return list(primary) if primary else vshape(rng, n, 3 if n <= 2 else 2)
+
+
+def _axis(rng, nd):
+    return rng.randrange(-nd, nd)
+
+
+def _keep(rng):
+    return int(rng.random() < 0.5)
+
+
+def _np_sum(x, v):
+    if not -x.ndim <= v["axis"] < x.ndim:
+        return INVALID
+    return AR(np.sum(x, axis=v["axis"], keepdims=bool(v["keepdims"])))
+
+
+def _np_pad(a, w):
+    n = a.ndim
+    if len(w) != 2 * n:
+        return None
+    return np.pad(a, [(w[i], w[n + i]) for i in range(n)])
+
+
+# --- sum(tile(a,reps),axis,keepdims)
+def _gc_sum_tile(rng, dims, primary=None):
+    n, m = dims
+    shape = _cshape(rng, n, primary)
+    return dict(a=A(shape, 1), reps=rshape(rng, m, 3), axis=_axis(rng, max(len(shape), m)), keepdims=_keep(rng))
+
+
+cvop("sum_tile", ("sum", "tile"), _vh("sum", "tile"), [ARR("a"), IA("reps"), IS("axis", signed=True, lo=-4), IS("keepdims", boolean=True)],
+     _SUM % "view::tile({a},{reps})", [(2, 2), (1, 2), (2, 1), (3, 2)], _gc_sum_tile,
+     lambda v, T="int": _np_sum(np.tile(np_arr(v["a"], T), v["reps"]), v))
+
+
+# --- cumsum(repeat(a,repeats,raxis),axis)
+def _gc_cumsum_repeat(rng, dims, primary=None):
+    n, = dims
+    shape = _cshape(rng, n, primary)
+    n = len(shape)
+    return dict(a=A(shape, 1), repeats=rng.choice([1, 2, 2, 3, 3]), raxis=rng.randrange(n), axis=_axis(rng, n))
+
+
+def _oc_cumsum_repeat(v, T="int"):
+    a = np_arr(v["a"], T)
+    if not 0 <= v["raxis"] < a.ndim or not -a.ndim <= v["axis"] < a.ndim or v["repeats"] < 0:
+        return INVALID
+    return AR(np.cumsum(np.repeat(a, v["repeats"], axis=v["raxis"]), axis=v["axis"]))
+
+
+cvop("cumsum_repeat", ("cumsum", "repeat"), _vh("cumsum", "repeat"), [ARR("a"), IS("repeats"), IS("raxis"), IS("axis", signed=True, lo=-4)],
+     "view::cumsum(view::repeat({a},{repeats},{raxis}),{axis})", [(2,), (1,), (3,)], _gc_cumsum_repeat, _oc_cumsum_repeat)
+
+
+# --- sum(pad(a,pad_width),axis,keepdims)
+def _gc_sum_pad(rng, dims, primary=None):
+    n, = dims
+    shape = _cshape(rng, n, primary)
+    n = len(shape)
+    return dict(a=A(shape, 1), pad_width=[rng.randint(0, 2) for _ in range(2 * n)], axis=_axis(rng, n), keepdims=_keep(rng))
+
+
+def _oc_sum_pad(v, T="int"):
+    p = _np_pad(np_arr(v["a"], T), v["pad_width"])
+    return INVALID if p is None else _np_sum(p, v)
+
+
+cvop("sum_pad", ("sum", "pad"), _vh("sum", "pad"), [ARR("a"), IA("pad_width"), IS("axis", signed=True, lo=-4), IS("keepdims", boolean=True)],
+     _SUM % "view::pad({a},{pad_width})", [(2,), (1,), (3,)], _gc_sum_pad, _oc_sum_pad)
+
+
+# --- sum(broadcast_to(a,dst),axis,keepdims)
+def _gc_sum_bto(rng, dims, primary=None):
+    v = _gv_bto(rng, dims, primary)
+    return dict(a=v["a"], dst=v["dst"], axis=_axis(rng, len(v["dst"])), keepdims=_keep(rng))
+
+
+def _oc_sum_bto(v, T="int"):
+    try:
+        b = np.broadcast_to(np_arr(v["a"], T), v["dst"])
+    except ValueError:
+        return NOTHING
+    return _np_sum(b, v)
+
+
+cvop("sum_bto", ("sum", "broadcast_to"), _vh("sum", "broadcast_to"), [ARR("a"), IA("dst"), IS("axis", signed=True, lo=-4), IS("keepdims", boolean=True)],
+     _SUM % "view::broadcast_to({a},{dst})", [(2, 3), (2, 2), (1, 2), (1, 3)], _gc_sum_bto, _oc_sum_bto)
+
+
+# --- transpose(pad(a,pad_width),axes)
+def _gc_transpose_pad(rng, dims, primary=None):
+    n, = dims
+    shape = _cshape(rng, n, primary)
+    n = len(shape)
+    ax = list(range(n))
+    rng.shuffle(ax)
+    return dict(a=A(shape, 1), pad_width=[rng.randint(0, 1) for _ in range(2 * n)], axes=ax)
+
+
+def _oc_transpose_pad(v, T="int"):
+    p = _np_pad(np_arr(v["a"], T), v["pad_width"])
+    if p is None or sorted(v["axes"]) != list(range(p.ndim)):
+        return INVALID
+    return AR(np.transpose(p, v["axes"]))
+
+
+cvop("transpose_pad", ("transpose", "pad"), _vh("transpose", "pad"), [ARR("a"), IA("pad_width"), IA("axes")],
+     "view::transpose(view::pad({a},{pad_width}),{axes})", [(2,), (3,)], _gc_transpose_pad, _oc_transpose_pad)
+
+
+# --- flatten(concatenate(a,b,axis))
+def _gc_flatten_concat(rng, dims, primary=None):
+    # only joinable operands: view::concatenate asserts on mismatching shapes (a precondition, it has no failure channel;
+    # invalid arguments are C15's) although flatten() of a dynamic-dimensional result is a maybe type
+    n, = dims
+    while True:
+        v = _gv_concat(rng, (len(primary) if primary else n, False), primary)
+        if _ov_concat(v) != NOTHING:
+            return v
+
+
+def _oc_flatten_concat(v, T="int"):
+    r = _ov_concat(v, T)
+    if r in (INVALID, NOTHING):
+        return r
+    return AR(np.concatenate([np_arr(v["a"], T), np_arr(v["b"], T)], axis=v["axis"]).flatten())
+
+
+cvop("flatten_concat", ("flatten", "concatenate"), _vh("flatten", "concatenate"), [ARR("a"), ARR("b"), IS("axis")],
+     "view::flatten(view::concatenate({a},{b},{axis}))", [(2,), (1,), (3,)], _gc_flatten_concat, _oc_flatten_concat)
+
+
+# --- add(broadcast_to(a,dst),b)
+def _gc_add_bto(rng, dims, primary=None):
+    n, m, k = dims
+    v = _gv_bto(rng, (n, m), primary)
+    dst = v["dst"]
+    k = min(k, len(dst))
+    b = [x if rng.random() < 0.6 else 1 for x in dst[len(dst) - k:]]
+    return dict(a=v["a"], dst=dst, b=A(b, 50))
+
+
+def _oc_add_bto(v, T="int"):
+    try:
+        return AR(np.add(np.broadcast_to(np_arr(v["a"], T), v["dst"]), np_arr(v["b"], T)))
+    except ValueError:
+        return NOTHING
+
+
+cvop("add_bto", ("add", "broadcast_to"), _vh("ufuncs/add", "broadcast_to"), [ARR("a"), IA("dst"), ARR("b")],
+     "view::add(view::broadcast_to({a},{dst}),{b})", [(2, 2, 2), (2, 3, 2), (1, 2, 2), (1, 3, 3)], _gc_add_bto, _oc_add_bto)
+
+
+# --- reshape(tile(a,reps),dst)
+def _gc_reshape_tile(rng, dims, primary=None):
+    n, m, k = dims
+    shape = _cshape(rng, n, primary)
+    reps = rshape(rng, m, 2)
+    ts = np.tile(np.zeros(shape, dtype=np.int8), reps).shape
+    dst = _factor(rng, int(np.prod(ts)), k)
+    if rng.random() < 0.1:
+        j = rng.randrange(k)
+        dst[j] += 1
+    return dict(a=A(shape, 1), reps=reps, dst=dst)
+
+
+def _oc_reshape_tile(v, T="int"):
+    if any(d <= 0 for d in v["dst"]):
+        return INVALID
+    try:
+        return AR(np.tile(np_arr(v["a"], T), v["reps"]).reshape(v["dst"]))
+    except ValueError:
+        return NOTHING
+
+
+cvop("reshape_tile", ("reshape", "tile"), _vh("reshape", "tile"), [ARR("a"), IA("reps"), IA("dst")],
+     "view::reshape(view::tile({a},{reps}),{dst})", [(2, 2, 2), (2, 2, 1), (1, 2, 3), (2, 1, 3)], _gc_reshape_tile, _oc_reshape_tile)
+
+
+# --- sum(transpose(tile(a,reps),axes),axis,keepdims)   (depth 3)
+def _gc_sum_transpose_tile(rng, dims, primary=None):
+    n, = dims
+    shape = _cshape(rng, n, primary)
+    n = len(shape)
+    ax = list(range(n))
+    rng.shuffle(ax)
+    return dict(a=A(shape, 1), reps=rshape(rng, n, 3 if n <= 2 else 2), axes=ax, axis=_axis(rng, n), keepdims=_keep(rng))
+
+
+def _oc_sum_transpose_tile(v, T="int"):
+    t = np.tile(np_arr(v["a"], T), v["reps"])
+    if sorted(v["axes"]) != list(range(t.ndim)):
+        return INVALID
+    return _np_sum(np.transpose(t, v["axes"]), v)
+
+
+cvop("sum_transpose_tile", ("sum", "transpose", "tile"), _vh("sum", "transpose", "tile"),
+     [ARR("a"), IA("reps"), IA("axes"), IS("axis", signed=True, lo=-4), IS("keepdims", boolean=True)],
+     _SUM % "view::transpose(view::tile({a},{reps}),{axes})", [(2,), (3,)], _gc_sum_transpose_tile, _oc_sum_transpose_tile)
+
+
+# --- multiply(sum(a,axis,keepdims),b)
+def _gc_mul_sum(rng, dims, primary=None):
+    n, = dims
+    shape = _cshape(rng, n, primary)
+    n = len(shape)
+    ax = _axis(rng, n)
+    keep = int(rng.random() < 0.6)
+    r = list(np.sum(np.zeros(shape, dtype=np.int8), axis=ax, keepdims=bool(keep)).shape)
+    if keep:
+        b = [x if rng.random() < 0.7 else 1 for x in shape]       # b may restore the reduced axis
+    else:
+        b = [1] * (n - len(r)) + [x if rng.random() < 0.7 else 1 for x in r]
+    if rng.random() < 0.1:
+        j = rng.randrange(len(b))
+        b[j] = b[j] % 3 + 2
+    return dict(a=A(shape, 1), axis=ax, keepdims=keep, b=A(b, 50))
+
+
+def _oc_mul_sum(v, T="int"):
+    a = np_arr(v["a"], T)
+    if not -a.ndim <= v["axis"] < a.ndim:
+        return INVALID
+    try:
+        return AR(np.multiply(np.sum(a, axis=v["axis"], keepdims=bool(v["keepdims"])), np_arr(v["b"], T)))
+    except ValueError:
+        return NOTHING
+
+
+cvop("mul_sum", ("multiply", "sum"), _vh("ufuncs/multiply", "sum"), [ARR("a"), IS("axis", signed=True, lo=-4), IS("keepdims", boolean=True), ARR("b")],
+     "view::multiply(" + _SUM % "{a}" + ",{b})", [(2,), (3,)], _gc_mul_sum, _oc_mul_sum)
+
+
+# --- slice(tile(a,reps),(start,stop),...)
+def _gc_slice_tile(rng, dims, primary=None):
+    n, m = dims
+    shape = _cshape(rng, n, primary)
+    reps = rshape(rng, m, 3)
+    e = int(np.tile(np.zeros(shape, dtype=np.int8), reps).shape[0])
+    s = rng.randrange(e)
+    return dict(a=A(shape, 1), reps=reps, start=s, stop=rng.randint(s + 1, e))
+
+
+def _oc_slice_tile(v, T="int"):
+    t = np.tile(np_arr(v["a"], T), v["reps"])
+    if t.ndim < 2 or not (0 <= v["start"] < v["stop"] <= t.shape[0]):
+        return INVALID
+    return AR(t[v["start"]:v["stop"], ...])
+
+
+cvop("slice_tile", ("slice", "tile"), _vh("slice", "tile"), [ARR("a"), IA("reps"), IS("start"), IS("stop")],
+     "view::slice(view::tile({a},{reps}),nmtools_tuple{{{start},{stop}}},nm::Ellipsis)", [(2, 2), (2, 1), (1, 2), (3, 2)], _gc_slice_tile, _oc_slice_tile)
+
+
+# --- cumsum(flatten(repeat(a,repeats,raxis)),0)   (depth 3)
+def _gc_cumsum_flatten_repeat(rng, dims, primary=None):
+    n, = dims
+    shape = _cshape(rng, n, primary)
+    return dict(a=A(shape, 1), repeats=rng.choice([1, 2, 2, 3, 3]), raxis=rng.randrange(len(shape)))
+
+
+def _oc_cumsum_flatten_repeat(v, T="int"):
+    a = np_arr(v["a"], T)
+    if not 0 <= v["raxis"] < a.ndim or v["repeats"] < 0:
+        return INVALID
+    return AR(np.cumsum(np.repeat(a, v["repeats"], axis=v["raxis"]).flatten()))
+
+
+cvop("cumsum_flatten_repeat", ("cumsum", "flatten", "repeat"), _vh("cumsum", "flatten", "repeat"), [ARR("a"), IS("repeats"), IS("raxis")],
+     "view::cumsum(view::flatten(view::repeat({a},{repeats},{raxis})),0)", [(2,), (3,), (1,)], _gc_cumsum_flatten_repeat, _oc_cumsum_flatten_repeat)
+
+
+# --- tile(sum(a,axis,keepdims),reps)
+def _gc_tile_sum(rng, dims, primary=None):
+    n, m = dims
+    shape = _cshape(rng, n, primary)
+    return dict(a=A(shape, 1), axis=_axis(rng, len(shape)), keepdims=_keep(rng), reps=rshape(rng, m, 2))
+
+
+def _oc_tile_sum(v, T="int"):
+    a = np_arr(v["a"], T)
+    if not -a.ndim <= v["axis"] < a.ndim:
+        return INVALID
+    return AR(np.tile(np.sum(a, axis=v["axis"], keepdims=bool(v["keepdims"])), v["reps"]))
+
+
+cvop("tile_sum", ("tile", "sum"), _vh("tile", "sum"), [ARR("a"), IS("axis", signed=True, lo=-4), IS("keepdims", boolean=True), IA("reps")],
+     "view::tile(" + _SUM % "{a}" + ",{reps})", [(2, 2), (2, 1), (3, 2)], _gc_tile_sum, _oc_tile_sum)
+
+
+# --- sum(add(a,b),axis,keepdims)
+def _gc_sum_add(rng, dims, primary=None):
+    v = _gv_binary(rng, dims, primary)
+    nd = max(len(v["a"]["shape"]), len(v["b"]["shape"]))
+    return dict(a=v["a"], b=v["b"], axis=_axis(rng, nd), keepdims=_keep(rng))
+
+
+def _oc_sum_add(v, T="int"):
+    try:
+        s = np.add(np_arr(v["a"], T), np_arr(v["b"], T))
+    except ValueError:
+        return NOTHING
+    return _np_sum(s, v)
+
+
+cvop("sum_add", ("sum", "add"), _vh("sum", "ufuncs/add"), [ARR("a"), ARR("b"), IS("axis", signed=True, lo=-4), IS("keepdims", boolean=True)],
+     _SUM % "view::add({a},{b})", [(2, 2), (1, 2), (3, 2)], _gc_sum_add, _oc_sum_add)
+
+COMPOSITES = [n for n, o_ in OPS.items() if o_.composite]
+
+
+# ----------------------------------------------------------------------------------------------------
 # candidate configurations of an operation (the probe decides which of them exist)
 # ----------------------------------------------------------------------------------------------------
 
@@ -1380,6 +1715,59 @@ def view_base_cfgs(o, small=False):
     return out
 
 
+# Composite operations: array kinds whose storage is inferred as fixed / bounded (fixed or hybrid buffer, constant or clipped
+# shape, raw / nested / fixed / hybrid arrays), each with RUN-TIME index arguments of two kinds - the region in which the
+# inferred result buffer of a view-of-a-view depends on what the inner view knows about its own size.
+COMPOSITE_TARGET_KINDS = ["cs_fb", "cs_hb", "cs_db", "fs_fb", "fs_hb", "hs_fb", "hs_hb", "ds_fb", "ds_hb", "ls_fb", "ls_hb",
+                          "raw", "nested", "fixed_nd", "hybrid_nd", "ds_db", "dynamic_nd"]
+RT_ROT = ["fx", "dy", "sv", "tp"]
+# quick tier: these array kinds (run-time index arguments) + two configurations with constant / clipped index arguments
+COMPOSITE_QUICK_KINDS = ["cs_fb", "fs_hb", "hs_hb", "ds_fb", "ds_hb", "ls_hb", "raw", "nested", "fixed_nd", "hybrid_nd", "ds_db"]
+COMPOSITE_QUICK_CONST = [("cs_fb", "ct"), ("ds_db", "clt")]
+
+
+def _view_build(o):
+    """configuration string of o from (array kinds, index kind)"""
+    def build(akinds, ik):
+        cfg = []
+        it = iter(akinds)
+        for a in o.args:
+            if a.typ == "arr":
+                cfg.append(ArgCfg(next(it)))
+            elif a.typ == "ia":
+                cfg.append(ArgCfg(ik, _t_for(a, ik)))
+            else:
+                c = _is_cfg(a, ik)
+                if c.kind == "cl" and (o.name in NO_SCALAR_CL or o.composite):
+                    c = ArgCfg("rt", "int" if a.signed else "size_t")
+                if a.boolean and o.composite:
+                    c = ArgCfg("tt")
+                cfg.append(c)
+        return cfg_str(cfg)
+    return build
+
+
+def composite_target_cfgs(o, build=None, quick=False):
+    build = build or _view_build(o)
+    narr = len([a for a in o.args if a.typ == "arr"])
+    out = []
+    kinds = COMPOSITE_QUICK_KINDS if quick else COMPOSITE_TARGET_KINDS
+    for i, k in enumerate(COMPOSITE_TARGET_KINDS):
+        if k not in kinds:
+            continue
+        out.append(build([k] * narr, RT_ROT[i % len(RT_ROT)]))
+        if not quick:
+            out.append(build([k] * narr, RT_ROT[(i + 2) % len(RT_ROT)]))
+    if quick:
+        for k, ik in COMPOSITE_QUICK_CONST:
+            out.append(build([k] * narr, ik))
+    res = []
+    for c in out:
+        if c not in res:
+            res.append(c)
+    return res
+
+
 def candidates_view(o, base_only=False):
     arrs = [a for a in o.args if a.typ == "arr"]
     out = []
@@ -1394,11 +1782,15 @@ def candidates_view(o, base_only=False):
                 cfg.append(ArgCfg(ik, _t_for(a, ik)))
             else:
                 c = _is_cfg(a, ik)
-                if c.kind == "cl" and o.name in NO_SCALAR_CL:
+                if c.kind == "cl" and (o.name in NO_SCALAR_CL or o.composite):
                     # the operation does not compile with a clipped scalar (probed): use a run-time scalar for this array kind
                     c = ArgCfg("rt", "int" if a.signed else "size_t")
                 if a.boolean and flip:
                     c = ArgCfg("b" if c.kind == "tt" else "tt")
+                if a.boolean and o.composite:
+                    # a run-time bool keepdims (dimension decided at run time) is not evaluable for ANY array kind (probed on
+                    # sum): composites carry keepdims as a compile-time constant with every index kind
+                    c = ArgCfg("tt")
                 cfg.append(c)
         return cfg_str(cfg)
 
@@ -1409,11 +1801,13 @@ def candidates_view(o, base_only=False):
     if len(arrs) >= 2:
         for i, (k1, k2) in enumerate(ARR_MIXED):
             out.append(build([k1, k2], IDX_ROT[i % len(IDX_ROT)]))
+    if o.composite and not base_only:
+        out += composite_target_cfgs(o, build=build)
     if has_idx and not base_only:
         for k in ("ds_db", "cs_fb", "ls_hb", "fs_hb", "hs_db"):
             for ik in IDX_ROT:
                 out.append(build([k] * len(arrs), ik))
-        if has_bool:
+        if has_bool and not o.composite:
             for i, k in enumerate(ARR_KINDS):
                 out.append(build([k] * len(arrs), IDX_ROT[i % len(IDX_ROT)], flip=i % 2 == 0))
     seen = set()
@@ -1817,6 +2211,19 @@ def make_group(gid, o, rng, supported_cfgs, nbaked, max_cfgs, pinned=(), dims=No
                 base.append(c)
             elif twin in cfgs:
                 base.append(twin)
+        if o.composite:
+            # the fixed / bounded array kinds with run-time index arguments are part of every program of a composite
+            tgt = [c for c in composite_target_cfgs(o, quick=small) if c in cfgs]
+            if small:
+                base = tgt
+            else:
+                # thorough: the reduced kind set (15 ndarray kinds, 4 column-major twins, 5 other kinds, every other mixed pair)
+                # + every target configuration; composites cost about twice a single view per configuration
+                b2 = []
+                for c in view_base_cfgs(o, True):
+                    if c in cfgs:
+                        b2.append(c)
+                base = b2 + [c for c in tgt if c not in b2]
         if o.weight > 1:
             base = base[::o.weight]     # expensive operation: every weight-th array kind (deterministic)
         extra = [c for c in cfgs if c not in base and o.weight == 1]
